@@ -54,7 +54,10 @@ def cases(draw, n):
     k = draw(st.integers(2, 8))
     min_share = Fraction(50, n) * 2
     for _ in range(20):
-        ws = [draw(st.sampled_from(["1", "1", "2", "3", "5", "10", "0.5", "2.5", "0.25", "7", "1.5", "20", "97"])) for _ in range(k)]
+        if draw(st.integers(0, 3)) == 0:
+            ws = [str(draw(st.integers(1, 9))) for _ in range(k)]  # small integers: many vectors with arithmetic coincidences
+        else:
+            ws = [draw(st.sampled_from(["1", "1", "2", "3", "5", "10", "0.5", "2.5", "0.25", "7", "1.5", "20", "97"])) for _ in range(k)]
         tot = sum(Fraction(w) for w in ws)
         if min(Fraction(w) / tot for w in ws) >= min_share:
             break
@@ -198,7 +201,7 @@ def selftest():
 
 def fixed_cases(n):
     pairs = [("https://exp.example/checkout/v1", "https://exp.example/checkout/v2"), ("a /* b */ c1", "a /* b */ c2"), ("s 1", "s  1"),
-             ("x // y1", "x // y2"), (None, "A"), ("", "B")]
+             ("x // y1", "x // y2"), (None, "A"), ("", "B"), ("checkout", "checkout'"), ('q"', "q"), ("Exp", "exp"), (" s", "s")]
     fams = FAMILIES
     for i, (s1, s2) in enumerate(pairs):
         yield {"second": "recompile", "family": fams[i % len(fams)], "offset": [0, 10 ** 6, 2 ** 60][i % 3], "weights": ["1", "1", "2"],
@@ -207,6 +210,12 @@ def fixed_cases(n):
                "salts": [s2, s1], "n": n}
     yield {"second": "fresh", "family": "seq-int", "offset": 0, "weights": ["2", "1", "1", "2"], "salts": ["A", "B"], "n": n,
            "labels": [M.enc(x) for x in ["control", "treatment", "holdout", "treatment"]]}
+    yield {"second": "fresh", "family": "email", "offset": 7, "weights": ["1", "2", "1"], "salts": ["A", "B"], "n": n,
+           "labels": [M.enc(x) for x in ["B", "B'", '"B']]}
+    # vectors with special structure: first weight equal to the mean, equal weights, a zero in front, one dominant group
+    for i, ws in enumerate([["2", "1", "3"], ["5", "1", "9"], ["1", "0", "2"], ["3", "1", "2", "6"], ["1", "1", "1"], ["0", "1", "1"],
+                            ["1", "2", "3", "4", "5", "6", "7", "8"], ["0.5", "0.25", "0.75"], ["10", "1", "1", "1", "1", "1", "1", "4"]]):
+        yield {"second": "fresh", "family": fams[i % len(fams)], "offset": 1000 * i, "weights": ws, "salts": ["salt1", "salt2"], "n": n}
 
 
 def run(ctx, rec):
